@@ -28,9 +28,9 @@ Proof. exact vtt_stamp_exact. Qed.
 Print Assumptions C01_vtt_stamp_exact.
 
 (* the configured shift moves the instant by whole milliseconds *)
-Theorem C01_vtt_shift : forall sh t, us (vtt_shifted sh t) = us (vtt_instant t) + sh * 1000.
+Theorem C01_vtt_shift_unfold : forall sh t, us (vtt_shifted sh t) = us (vtt_instant t) + sh * 1000.
 Proof. exact vtt_shift_exact. Qed.
-Print Assumptions C01_vtt_shift.
+Print Assumptions C01_vtt_shift_unfold.
 
 (* the whole timing line `start --> end [settings]` with any run of blanks / tabs on either side of the arrow,
    lenient or strict (on ordered cues) *)
